@@ -107,8 +107,9 @@ func c15(r *hx.Run) {
 		err bool
 		res uint64
 	}
-	reps := []rep{{true, 0}, {false, 0}, {false, 1}, {false, 7}, {false, 8}, {false, 9}}
-	qs := []rep{{true, 0}, {false, 0}, {false, 1}, {false, 9}}
+	// result codes incl. ones whose low 32 / low 8 bits are zero (a narrowing conversion must not turn them into "success")
+	reps := []rep{{true, 0}, {false, 0}, {false, 1}, {false, 7}, {false, 8}, {false, 9}, {false, 1 << 32}, {false, 1 << 63}, {false, 256}}
+	qs := []rep{{true, 0}, {false, 0}, {false, 1}, {false, 9}, {false, 3 << 32}, {false, 1<<63 + 1<<32}, {false, 65536}}
 	statuses := []uint64{0, inflight, qerr, unavail, 5, 1<<63 + 5}
 	outs := []uint32{0, 1, 5006, labi.ReqBufSize - 1, labi.ReqBufSize, labi.ReqBufSize + 1, 1<<32 - 1}
 	bufKinds := []string{"pat", "left", "rand"}
